@@ -44,10 +44,18 @@ Record wbase := mkWBase {
 
 Definition simple_base (s : sym) : wbase := mkWBase s None None None None None None None None None.
 
+(** a single uuid in its wire form, ["uuid", x] or ["named-uuid", x] *)
+Definition is_uuid_atom (v : gval) : bool :=
+  match v with
+  | GArr [GStr t; GStr _] => N.eqb t s_uuid || N.eqb t s_named
+  | _ => false
+  end.
+
 Definition dec_enum (o : option gval) : res (option (list gval)) :=
   match o with
   | None | Some GNull => Ok None
   | Some (GArr oSet) =>
+      if is_uuid_atom (GArr oSet) then Ok (Some [GArr oSet]) else
       bad <- (if negb (Nat.eqb (length oSet) 2) then Ok true
               else h <- idx oSet 0 ;; Ok (negb (str_is h s_set))) ;;
       if bad : bool then Err EOther
@@ -100,7 +108,7 @@ Definition enc_base (b : wbase) : gval :=
 Definition is_scalar (v : gval) : bool :=
   match v with GBool _ | GNum _ _ | GStr _ => true | _ => false end.
 Definition wf_enum (o : option (list gval)) : bool :=
-  match o with None => true | Some [] => false | Some l => forallb is_scalar l end.
+  match o with None => true | Some [] => false | Some l => forallb (fun v => is_scalar v || is_uuid_atom v) l end.
 Definition wf_base (b : wbase) : bool := wf_enum (wb_enum b) && is_atomic_type (wb_type b).
 
 Definition base_is_simple (b : wbase) : bool :=
